@@ -3,8 +3,11 @@
 import json, os, subprocess, sys, xml.etree.ElementTree as ET
 out = "/tmp/verif_baseline.junit.xml"
 env = {k: v for k, v in os.environ.items() if k != "PYIRON_WORKFLOW_VERIF"}
+REPO = os.environ.get("BASELINE_REPO", "/repo")
+env["PYTHONPATH"] = REPO
+out = f"/tmp/verif_baseline_{os.getpid()}.junit.xml"
 subprocess.run(["/venv/bin/python", "-m", "pytest", "-ra", "-q", "-p", "no:cacheprovider", "--timeout=900",
-                "--continue-on-collection-errors", f"--junitxml={out}"], cwd="/repo", env=env,
+                "--continue-on-collection-errors", f"--junitxml={out}"], cwd=REPO, env=env,
                stdout=subprocess.DEVNULL, stderr=subprocess.DEVNULL)
 passed = set()
 for tc in ET.parse(out).getroot().iter("testcase"):
